@@ -166,7 +166,10 @@ func (s *byPodSolver) evictPotentialVictimsFromNode(
 	recordedVictimsCheckpoint := statement.Checkpoint()
 	pendingJob := scenario.GetPreemptor()
 
-	potentialVictimsTasks := scenario.VictimsTasksFromNodes([]string{nodeToTest})
+	// The recorded victims were already evicted by solve(); their job's task groups are listed again
+	// among the potential victims of the node, and evicting a task twice releases its resources twice.
+	potentialVictimsTasks := filterOutRecordedVictims(
+		scenario.VictimsTasksFromNodes([]string{nodeToTest}), scenario.RecordedVictimsTasks())
 	if err := common.EvictAllPreemptees(session, potentialVictimsTasks, pendingJob, statement, s.actionType); err != nil {
 		return nil, nil, err
 	}
@@ -273,6 +276,23 @@ func extractJobsFromTasks(
 		}
 	}
 	return jobs
+}
+
+func filterOutRecordedVictims(tasks []*pod_info.PodInfo, recordedVictimsTasks []*pod_info.PodInfo) []*pod_info.PodInfo {
+	if len(recordedVictimsTasks) == 0 {
+		return tasks
+	}
+	recorded := make(map[common_info.PodID]bool, len(recordedVictimsTasks))
+	for _, task := range recordedVictimsTasks {
+		recorded[task.UID] = true
+	}
+	var filtered []*pod_info.PodInfo
+	for _, task := range tasks {
+		if !recorded[task.UID] {
+			filtered = append(filtered, task)
+		}
+	}
+	return filtered
 }
 
 func getVictimTasks(recordedVictimsTasks []*pod_info.PodInfo, potentialVictimsTasks []*pod_info.PodInfo) []*pod_info.PodInfo {
